@@ -22,9 +22,22 @@ class RecArr(np.ndarray):
         self._vid = getattr(obj, '_vid', None)
         self._rec = getattr(obj, '_rec', None)
         self._off = getattr(obj, '_off', 0)
+        self._isroot = False  # views (rows, slices) of a recorded array are not tracked for initialisation
+
+    def __getitem__(self, idx):
+        # a scalar read of an element of an np.empty array that nothing has written yet = use of uninitialised memory
+        rec = self._rec
+        if rec is not None and self._isroot and self._vid.startswith('empty') and isinstance(idx, (int, np.integer)) and self.ndim == 1:
+            if (self._vid, int(idx)) not in rec.ever_written:
+                rec.uninit_reads.append((self._vid, int(idx), rec.region, rec.iteration))
+        return np.ndarray.__getitem__(self, idx)
 
     def __setitem__(self, idx, val):
         rec = self._rec
+        if rec is not None and self._isroot and isinstance(idx, (int, np.integer)):
+            rec.ever_written.add((self._vid, int(idx)))
+        elif rec is not None and self._isroot and self.ndim == 1:
+            rec.ever_written.update((self._vid, int(i)) for i in np.arange(len(self))[idx].ravel())  # slice / mask / fancy assignment
         if rec is not None and rec.iteration is not None:
             if isinstance(idx, tuple):
                 key = tuple(int(i) if isinstance(i, (int, np.integer)) else repr(i) for i in idx)
@@ -47,6 +60,7 @@ class NpProxy:
         a = arr.view(RecArr)
         a._vid = f'{how}#{self._n}'
         a._rec = self._rec
+        a._isroot = True
         self.created[a._vid] = a
         self._n += 1
         return a
@@ -95,6 +109,8 @@ def monitored(disp):
 
     rec = RegionRecorder()
     rec.nwrites = {}
+    rec.ever_written = set()
+    rec.uninit_reads = []
     npp = NpProxy(rec)
     f = disp.py_func
     g = dict(f.__globals__)
@@ -125,7 +141,7 @@ def analyse(rec, npp, out_prefix_lengths=None):
                     unwritten.append((vid, i))
                 elif n > 1:
                     multi.append((vid, i, n))
-    res.update(multi_written=multi[:5], nmulti=len(multi), unwritten=unwritten[:5], nunwritten=len(unwritten))
+    res.update(multi_written=multi[:5], nmulti=len(multi), unwritten=unwritten[:5], nunwritten=len(unwritten), uninit_reads=rec.uninit_reads[:5], nuninit=len(rec.uninit_reads))
     return res
 
 
